@@ -49,6 +49,13 @@ func leafForms() []int {
 		}
 		return append(all, lfBareQuotedWild, lfEmptyQuoted)
 	}
+	if rtParam("LEAVES") == 8 { // purity alphabet: the full one plus float ranges (fractional and whole bounds)
+		all := make([]int, 0, lfCount+2)
+		for i := 0; i < lfCount; i++ {
+			all = append(all, i)
+		}
+		return append(all, lfRangeFloat, lfRangeWhole, lfListInt)
+	}
 	if rtParam("LEAVES") == 2 {
 		return []int{lfBare, lfEqStr, lfEqInt, lfGt, lfRangeIncl, lfList, lfWild, lfBareInt}
 	}
